@@ -18,8 +18,19 @@ func Supervise(id, level, oracle, context string) {
 	if os.Getenv("VERIF_SUPERVISED") != "" {
 		return
 	}
+	// scratch root for the child (nodes under test keep ticker goroutines that may look at their directories a
+	// moment after being stopped: directories are not removed one by one but with the root, after the child ended)
+	base := "/dev/shm"
+	if _, err := os.Stat(base); err != nil {
+		base = os.TempDir()
+	}
+	root, rerr := os.MkdirTemp(base, "verif-"+strings.ToLower(id)+"-")
 	cmd := exec.Command(os.Args[0], os.Args[1:]...)
 	cmd.Env = append(os.Environ(), "VERIF_SUPERVISED=1")
+	if rerr == nil {
+		cmd.Env = append(cmd.Env, "VERIF_TMPROOT="+root)
+		defer os.RemoveAll(root)
+	}
 	cmd.Stdout = os.Stdout
 	cmd.Stdin = os.Stdin
 	var tail tailBuf
@@ -34,6 +45,9 @@ func Supervise(id, level, oracle, context string) {
 	}
 	txt := string(tail.b)
 	crashed := strings.Contains(txt, "\npanic: ") || strings.HasPrefix(txt, "panic: ") || strings.Contains(txt, "fatal error: ")
+	if rerr == nil {
+		os.RemoveAll(root)
+	}
 	if !crashed || code == 0 || code == 1 {
 		os.Exit(code)
 	}
